@@ -84,6 +84,8 @@ def check(case, rec):
     from nptdms import TdmsFile
     if 'scaled' in case:
         return check_scaled(case, rec)
+    if case.get('huge'):
+        return check_huge(case, rec)
     fs = case['fs']
     data, _i, lay = encode_file(fs)
     ex = expected_content(fs)
@@ -304,6 +306,143 @@ def check_scaled(case, rec):
 
 
 @st.composite
+def huge_cases(draw):
+    """files of 2 - 12 GiB that exist only as a formula (vf.observe.VirtualStream): 64-bit arithmetic of offsets and counts"""
+    types = draw(st.lists(st.sampled_from(['u8', 'i16', 'i32', 'f32', 'f64', 'i64']), min_size=1, max_size=3))
+    inter = draw(st.booleans())
+    n = draw(st.sampled_from([1, 3, 1000, 4096, 65536, 1 << 20]))
+    chunk = sum(tsize(t) for t in types) * n
+    target = draw(st.sampled_from([2 ** 31, 2 ** 32, 3 * 2 ** 31, 2 ** 33, 3 * 2 ** 32])) + draw(st.integers(-3, 3)) * chunk
+    nchunks = max(2, target // chunk)
+    reqs = [[draw(st.sampled_from(['window', 'index', 'slice'])), draw(st.integers(0, len(types) - 1)),
+             draw(st.sampled_from(['start', 'end', 'b31', 'b32', 'b33', 'any'])), draw(st.integers(-4, 4)),
+             draw(st.integers(0, 6))] for _ in range(10)]
+    return {'huge': True, 'types': types, 'interleaved': inter, 'n': n, 'nchunks': int(nchunks), 'be': draw(st.booleans()),
+            'second_segment': draw(st.booleans()), 'reqs': reqs}
+
+
+def check_huge(case, rec):
+    from nptdms import TdmsFile
+    from vf.observe import VirtualStream
+    from vf.encode import encode_metadata
+    from vf.model import make_path, np_dtype
+    import struct
+    types, n, nchunks, inter, be = case['types'], case['n'], case['nchunks'], case['interleaved'], case['be']
+    paths = [make_path('g', 'c%d' % i) for i in range(len(types))]
+    seg = {'be': be, 'entries': [{'path': p, 'hdr': 'full', 'type': t, 'n': n} for p, t in zip(paths, types)]}
+    meta = encode_metadata(seg)
+    e = '>' if be else '<'
+    stride = sum(tsize(t) for t in types)
+    raw_len = stride * n * nchunks
+    toc = (1 << 1) | (1 << 2) | (1 << 3) | ((1 << 5) if inter else 0) | ((1 << 6) if be else 0)
+    lead = b'TDSm' + struct.pack('<I', toc) + struct.pack(e + 'i', 4713) + struct.pack(e + 'QQ', len(meta) + raw_len, len(meta))
+    head = lead + meta
+    data_pos = len(head)
+    size = data_pos + raw_len
+    seg_starts = [data_pos]
+    counts = [nchunks]
+    if case['second_segment']:
+        # a second, metadata-less segment of three more chunks: positions continue beyond the first segment's end
+        lead2 = b'TDSm' + struct.pack('<I', (1 << 3) | ((1 << 5) if inter else 0) | ((1 << 6) if be else 0)) + \
+            struct.pack(e + 'i', 4713) + struct.pack(e + 'QQ', stride * n * 3, 0)
+        # the second lead-in must sit at `size`: it cannot be part of the formula, so the stream gets it as an overlay
+        overlay = (size, lead2)
+        seg_starts.append(size + 28)
+        counts.append(3)
+        size = size + 28 + stride * n * 3
+    else:
+        overlay = None
+    stream = VirtualStream(head, size)
+    if overlay:
+        base_content = stream.content
+
+        def content(start, k, _o=overlay, _b=base_content):
+            b = bytearray(_b(start, k))
+            lo, blob = _o
+            a, z = max(start, lo), min(start + len(b), lo + len(blob))
+            if a < z:
+                b[a - start:z - start] = blob[a - lo:z - lo]
+            return bytes(b)
+        stream.content = content
+    rec.nontrivial(True)
+    rec.label('virtual_file', 'interleaved' if inter else 'contiguous', 'size_gib=%d' % (size >> 30))
+    total = n * sum(counts)
+
+    def value_bytes(ci, k):
+        """bytes (file order) of value k of channel ci"""
+        t = types[ci]
+        sz = tsize(t)
+        col = sum(tsize(x) for x in types[:ci])
+        si, kk = 0, k
+        while kk >= n * counts[si]:
+            kk -= n * counts[si]
+            si += 1
+        if inter:
+            pos = seg_starts[si] + kk * stride + col
+        else:
+            pos = seg_starts[si] + (kk // n) * (stride * n) + col * n + (kk % n) * sz
+        return VirtualStream.pattern(pos, sz).tobytes()
+    ok, tf = rec.guard('open', lambda: TdmsFile.open(stream))
+    if not ok:
+        return
+    try:
+        chans = [tf['g']['c%d' % i] for i in range(len(types))]
+        for ci, ch in enumerate(chans):
+            if len(ch) != total:
+                rec.violation('length', 'len(%s) = %d, the file declares %d x %d values' % (ch.path, len(ch), sum(counts), n))
+                return
+        for (kind, ci, where, delta, length) in case['reqs']:
+            t = types[ci]
+            sz = tsize(t)
+            per_byte = {'b31': 2 ** 31, 'b32': 2 ** 32, 'b33': 2 ** 33}
+            if where == 'start':
+                k = 0
+            elif where == 'end':
+                k = total - 1
+            elif where == 'any':
+                k = (delta * 2654435761 + length * 40503) % total
+            else:
+                # the value whose bytes sit around an absolute file position of 2^31 / 2^32 / 2^33
+                frac = per_byte[where] / float(size)
+                k = int(total * min(frac, 0.999999))
+            k = min(max(k + delta, 0), total - 1)
+            stream.log = []
+            ch = chans[ci]
+            try:
+                if kind == 'index':
+                    got = np.asarray([ch[k if delta % 2 else k - total]])
+                    a, b = k, k + 1
+                elif kind == 'window':
+                    got = np.asarray(ch.read_data(k, length))
+                    a, b = k, min(k + length, total)
+                else:
+                    got = np.asarray(ch[k:k + length])
+                    a, b = k, min(k + length, total)
+            except Exception as ex:      # noqa
+                from vf.harness import exc_key, describe_exc
+                rec.violation('huge:raised', '%s on a %d GiB file: %s' % ((kind, ci, k, length), size >> 30, describe_exc(ex)),
+                              key=exc_key(ex))
+                return
+            want = b''.join(value_bytes(ci, j) for j in range(a, b))
+            if be:
+                want = b''.join(want[i:i + sz][::-1] for i in range(0, len(want), sz))
+            from vf.observe import le_bytes
+            if len(got) != b - a or le_bytes(got) != want:
+                rec.violation('huge:values', '%s values [%d, %d) of channel %d (%s, %s, %d GiB): got %r' % (
+                    kind, a, b, ci, t, 'interleaved' if inter else 'contiguous', size >> 30, got[:4]))
+                return
+            # bounded by the request, not by the file: at most the chunks overlapping the request (+ lead-ins)
+            nbytes = sum(x[1] for x in stream.log)
+            touched = (max(b - a, 1) // n + 2) * stride * n + 4096
+            if nbytes > touched:
+                rec.violation('huge:bytes_read', '%s of %d values read %d bytes from the stream (chunk size %d)' % (
+                    kind, b - a, nbytes, stride * n))
+                return
+    finally:
+        tf.close()
+
+
+@st.composite
 def scaled_cases(draw):
     from props.C13 import cases as c13_cases
     picks = draw(st.lists(st.tuples(st.integers(0, 10 ** 6), st.integers(0, 10 ** 6), st.integers(0, 10 ** 6)),
@@ -333,9 +472,12 @@ def jobs(tier):
         return [Job('files', 'hyp', lambda: cases(), n=4000),
                 Job('long_files_shared_offset_prefix', 'hyp', twin_cases, n=64),
                 Job('daqmx_files', 'hyp', daqmx_cases, n=700, check=check_daqmx),
-                Job('scaled_channels', 'hyp', scaled_cases, n=700, check=check_scaled)]
+                Job('scaled_channels', 'hyp', scaled_cases, n=700, check=check_scaled),
+                Job('virtual_files_of_2_to_12_GiB', 'hyp', huge_cases, n=160, check=check_huge,
+                    note='files that exist only as a formula: windows, slices and indices around byte positions 2^31, 2^32, 2^33')]
     return [Job('files', 'hyp', lambda: cases(), n=40000),
             Job('long_files_shared_offset_prefix', 'hyp', twin_cases, n=2000),
             Job('daqmx_files', 'hyp', daqmx_cases, n=20000, check=check_daqmx),
             Job('scaled_channels', 'hyp', scaled_cases, n=20000, check=check_scaled),
+            Job('virtual_files_of_2_to_12_GiB', 'hyp', huge_cases, n=4000, check=check_huge),
             Job('wider', 'hyp', lambda: cases(max_segments=8, max_n=9, max_chunks=5, max_channels=4), n=10000)]
